@@ -98,7 +98,17 @@ def gen(rng, n_cases, classes=("rnc", "constr")):
         G, H = gen_constraints(rng, n)
         k = rng.randint(10)
         n_survive = None if k == 0 else (n + int(rng.randint(1, 4)) if k == 1 else int(rng.randint(1, n + 1)))
-        yield {"cls": cls, "metric": metric, "n_survive": n_survive, "F": F, "G": G, "H": H,
+        # history of the operator object before the recorded call: none / used on a population of another
+        # problem (other constraint layout, other size) / used on the same population with a smaller quota
+        warm = ["none", "none", "other-problem", "same-pop"][rng.randint(4)]
+        inf_F = False
+        if cls == "rnc" and rng.randint(15) == 0 and n >= 3:
+            # +inf objective values (penalised / failed evaluations): dominance and ranks are still well defined.
+            # The crowding values of such fronts are NaN-ridden in NumPy, so these records are judged by the
+            # rank / feasibility oracles only and are not sent to the Lean model.
+            F = np.where(rng.random_sample(F.shape) < 0.2, np.inf, F)
+            inf_F = True
+        yield {"cls": cls, "metric": metric, "n_survive": n_survive, "F": F, "G": G, "H": H, "warm": warm, "inf_F": inf_F,
                "seed": int(rng.randint(2**31 - 1))}
 
 
@@ -159,7 +169,7 @@ class Oracles:
 def run(case, replay=None):
     import pymoo.core.survival as pcs
     from pymoode.survival.rank_and_crowding import rnc
-    rec = Record(NAME, {k: case[k] for k in ("cls", "metric", "n_survive", "seed")},
+    rec = Record(NAME, dict({k: case[k] for k in ("cls", "metric", "n_survive", "seed")}, warm=case.get("warm", "none"), inf_F=bool(case.get("inf_F"))),
                  {k: np.array(case[k], dtype=float) for k in ("F", "G", "H")})
     F, G, H = rec.inp["F"], rec.inp["G"], rec.inp["H"]
     n = len(F)
@@ -181,6 +191,29 @@ def run(case, replay=None):
                 s.nds = orc.wrap_nds(s.nds)
                 s.ranking.nds = orc.wrap_nds(s.ranking.nds)
                 s.ranking.crowding_func = orc.wrap_crowd(s.ranking.crowding_func)
+            warm = case.get("warm", "none")
+            if warm != "none":
+                st = np.random.get_state()
+                real = (s.nds, getattr(s, "crowding_func", None))
+                if warm == "other-problem":
+                    r2 = np.random.RandomState(case["seed"] % 9973)
+                    n2 = n + 3
+                    F2 = r2.random_sample((n2, F.shape[1]))
+                    # the other kind of constraints: swap the numbers of inequality / equality columns (+1)
+                    G2 = r2.standard_normal((n2, H.shape[1] + 1))
+                    H2 = r2.standard_normal((n2, G.shape[1])) * (r2.random_sample((n2, G.shape[1])) < 0.5)
+                    prob2, pop2 = make_pop(F2, G2, H2)
+                    s.do(prob2, pop2, n_survive=max(1, n2 // 2))
+                else:
+                    prob2, pop2 = make_pop(F, G, H)
+                    s.do(prob2, pop2, n_survive=1)
+                    k2 = case["n_survive"]
+                    if k2 is not None and k2 > 2:
+                        s.do(prob2, pop2, n_survive=k2 // 2)
+                    # the recorded call below is made on the same objective values with a larger quota
+                np.random.set_state(st)
+                del orc.splits[:], orc.nds[:], orc.crowd[:], orc.sorts[:]
+                rec.tags.add("warm:" + warm)
             pcs.split_by_feasibility = orc.wrap_split(saved[0])
             rnc.split_by_feasibility = orc.wrap_split(saved[1])
             rnc.randomized_argsort = orc.wrap_sort(saved[2])
@@ -221,6 +254,8 @@ def run(case, replay=None):
 
 
 def encode(rec):
+    if rec.cfg.get("inf_F"):
+        raise ValueError("skipped")
     F, G, H = rec.inp["F"], rec.inp["G"], rec.inp["H"]
     n = len(F)
     o = rec.out["oracles"]
@@ -410,6 +445,8 @@ def oracle_C16(rec):
 
 def oracle_C15(rec):
     import comp_trunc
+    if rec.cfg.get("inf_F"):
+        return []       # crowding of fronts with infinite objective values is outside C15
     return comp_trunc.oracle_C15(rec)
 
 
